@@ -18,6 +18,11 @@ COLUMN_EXPRS = [
     ["concat", "(", "name", ",", "'-'", ",", "ext", ")"], ["format_size", "(", "size", ",", "'%.1'", ")"],
     ["substr", "(", "name", ",", "1", ",", "3", ")"], ["year", "(", "modified", ")"],
     ["coalesce", "(", "ext", ",", "'none'", ")"], ["size", "mod", "7"], ["-", "size"],
+    # calls nested in calls (each bracket pair can be spelled round or curly independently)
+    ["upper", "(", "substr", "(", "name", ",", "1", ",", "3", ")", ")"],
+    ["concat", "(", "lower", "(", "ext", ")", ",", "upper", "(", "name", ")", ")"],
+    ["length", "(", "concat", "(", "name", ",", "ext", ")", ")", "+", "1"],
+    ["abs", "(", "(", "size", "-", "4", ")", ")"],
 ]
 AGG_EXPRS = [["count(*)"], ["sum", "(", "size", ")"], ["avg", "(", "size", ")"],
              ["min", "(", "length", "(", "name", ")", ")"], ["max", "(", "size", ")"], ["stddev", "(", "size", ")"]]
@@ -31,6 +36,7 @@ ATOMS = [
     ["length", "(", "name", ")", ">=", "4"], ["size", "+", "1", "gt", "3"], ["hardlinks", "eq", "1"],
     ["name", "not", "like", "'%.md'"], ["size", "not", "between", "2", "and", "20"], ["uid", "ge", "0"],
     ["lower", "(", "name", ")", "eq", "readme"], ["mode", "like", "'-rw%'"],
+    ["length", "(", "lower", "(", "name", ")", ")", ">=", "4"], ["upper", "(", "substr", "(", "name", ",", "1", ",", "1", ")", ")", "=", "A"],
 ]
 ROOTS = [".", "sub", "./sub", "sub/deep", "./", "sub/", "empty"]
 ROOT_OPTS = [["mindepth", "1"], ["maxdepth", "2"], ["depth", "1"], ["dfs"], ["bfs"], ["archives"], ["arc"],
